@@ -67,7 +67,7 @@ package services
 // C09 — cross-namespace gate
 
 //@ func buildResourceName
-//@   props C09
+//@   props C09 C15
 //@   modifies nothing
 //@   ensures gate:     result.2 == nil ==> defaultNamespace == "" || nsOf(resourceName) == "" || allowCrossNamespace || nsOf(resourceName) == defaultNamespace
 //@   ensures ns:       result.2 == nil ==> result.0 == ((nsOf(resourceName) == "" && defaultNamespace != "") ? defaultNamespace : nsOf(resourceName))
